@@ -24,7 +24,7 @@ pub fn run(args: &Args) -> i32 {
   rep.assume("reader QoS Reliable, KeepAll, max_samples 1e6 so resource limits are never exceeded (premise of C01)");
   rep.assume("each writer uses one constant fragment size (FragmentAssembler fixes it per writer)");
   rep.assume("Reader driven synchronously through MessageReceiver::handle_received_packet; the mio event loop is bypassed");
-  let ncases = args.scale(3000, 120_000);
+  let ncases = args.scale(60_000, 3_000_000);
   let gp = GenParams {
     max_samples_per_writer: if args.thorough() { 40 } else { 14 },
     max_writers: 3,
